@@ -21,9 +21,19 @@ import vlib
 
 THEOREMS = [
     "c11_builder_flat",
+    # nested loop = spec
     "nl_eq_spec_inner", "nl_eq_spec_semi", "nl_eq_spec_anti",
-    "limit_exec_eq_spec", "chunking_irrelevant_limit",
-    "topn_eq_order_limit", "topn_eq_spec",
+    # hash = nested loop under KeysComparable; full statements refuted
+    "hash_eq_nl_inner", "hash_eq_nl_semi", "hash_eq_nl_anti", "hashjoin_inner_structural",
+    "chunking_irrelevant_hashjoin_inner",
+    "hash_eq_nl_unsound_null_key", "hash_eq_nl_unsound_int_width", "hash_anti_unsound_null_key",
+    "merge_eq_nl_unsound_null_key",
+    # limit / top-N
+    "limit_exec_eq_spec", "chunking_irrelevant_limit", "topn_eq_order_limit", "topn_eq_spec",
+    # aggregation paths
+    "rowpath_eq_spec", "simpleagg_eq_hashagg_nokeys_sum_partial", "simpleagg_eq_hashagg_nokeys_sum_unsound",
+    "simpleagg_eq_hashagg_nokeys_first_unsound",
+    "simpleagg_is_chunkpath", "sortagg_nokeys_is_rowpath",
 ]
 
 # witnesses of the `_unsound` theorems, replayed on the implementation by the corpus file
